@@ -13,7 +13,7 @@
         and then answers like `case`; the harness treats `render` like `case`.
    layout ::= (layout (pre W...) (gap0 (B...)...) (gap1 (B...)...) (brk (W...)...) (dict (W...)...) <n> (secs SEC...) (post W...))
    SEC ::= (sec (B...) (W...) (lines LINE...) (W...))
-   LINE ::= (line <bits> (B...) <bits> (B...) <0|1> (B...) (tgts ((B...) (U...))...) (B...) (W...))
+   LINE ::= (line <bits> (B...) <bits> (B...) <0|1> (W...) (tgts ((W...) (U...))...) (W...) (W...))
    U ::= (<bits> (S...))      B ::= s | t      S ::= B | cr | lf | crlf      W ::= S | (c <bytes> cr|lf|crlf)
    <bits> = an atom of 0 / 1 (1 = upper case digit), "-" for none
    secs ::= (secs (cs (lo hi len)...) | (bfchar (code len (u...))...) | (bfrange (lo hi len ((u...)...))...) ...) *)
@@ -79,17 +79,17 @@ Definition dec_ulay (x : sx) : option ulay :=
   | SL [b; g] => do b' <- dec_bits b; do g' <- dec_list dec_sitem g; Some (mkUlay b' g')
   | _ => None
   end.
-Definition dec_tgt (x : sx) : option (gap1 * tlay) :=
+Definition dec_tgt (x : sx) : option (brk0 * tlay) :=
   match x with
-  | SL [g; t] => do g' <- dec_ne dec_blank g; do t' <- dec_list dec_ulay t; Some (g', t')
+  | SL [g; t] => do g' <- dec_list dec_witem g; do t' <- dec_list dec_ulay t; Some (g', t')
   | _ => None
   end.
 Definition dec_line (x : sx) : option line_lay :=
   match x with
   | SL [_; c1; g1; c2; g2; br; op; tg; cl; en] =>
     do c1' <- dec_bits c1; do g1' <- dec_list dec_blank g1; do c2' <- dec_bits c2; do g2' <- dec_list dec_blank g2;
-    do br' <- as_bool br; do op' <- dec_list dec_blank op; do tg' <- omap dec_tgt (args tg);
-    do cl' <- dec_list dec_blank cl; do en' <- dec_ne dec_witem en;
+    do br' <- as_bool br; do op' <- dec_list dec_witem op; do tg' <- omap dec_tgt (args tg);
+    do cl' <- dec_list dec_witem cl; do en' <- dec_ne dec_witem en;
     Some (mkLineLay c1' g1' c2' g2' br' op' tg' cl' en')
   | _ => None
   end.
